@@ -30,7 +30,7 @@ C_TMPL = [TC + n for n in ("state_index", "parameter_index", "monitor_index", "m
 ARGS = [PYG + "_rhs_arguments", PYG + "_scheme_arguments", CG + "_rhs_arguments", CG + "_scheme_arguments"]
 
 PROPS = {
-    "C01": dict(functions=EXPR + [B + "rhs"] + SORTED + UNPACK + PY_PRINT + [TP + "method"], lemmas=L.L1),
+    "C01": dict(functions=EXPR + [B + "rhs"] + SORTED + UNPACK + PY_PRINT + [TP + "method"], lemmas=L.L1 + L.L2 + L.STAB),
     "C02": dict(functions=[CG + "_rhs_arguments", CG + "_scheme_arguments", G + "gotran2c.get_code", B + "rhs", B + "monitor_values",
                            PP + "_print_Float"] + C_TMPL, lemmas=[]),
     "C03": dict(functions=[B + "monitor_values", B + "missing_values", B + "rhs", B + "scheme", TJ + "method",
